@@ -51,9 +51,26 @@ def build_designspace(family, lib="ufoLib2"):
     for k, v in (family.get("lib") or {}).items():
         ds.lib[k] = v
     for vf in family.get("variableFonts", []):
-        from fontTools.designspaceLib import RangeAxisSubsetDescriptor, VariableFontDescriptor
+        from fontTools.designspaceLib import RangeAxisSubsetDescriptor, ValueAxisSubsetDescriptor, VariableFontDescriptor
 
-        d = VariableFontDescriptor(name=vf["name"], axisSubsets=[RangeAxisSubsetDescriptor(name=a["name"]) for a in family["axes"]])
+        # "subsets": {axisName: {"min", "default", "max"} (each optional) | {"value": v}}; axes not named span their range
+        subs = []
+        for a in family["axes"]:
+            sp = (vf.get("subsets") or {}).get(a["name"])
+            if sp is None:
+                subs.append(RangeAxisSubsetDescriptor(name=a["name"]))
+            elif "value" in sp:
+                subs.append(ValueAxisSubsetDescriptor(name=a["name"], userValue=sp["value"]))
+            else:
+                kw = {}
+                if "min" in sp:
+                    kw["userMinimum"] = sp["min"]
+                if "max" in sp:
+                    kw["userMaximum"] = sp["max"]
+                if "default" in sp:
+                    kw["userDefault"] = sp["default"]
+                subs.append(RangeAxisSubsetDescriptor(name=a["name"], **kw))
+        d = VariableFontDescriptor(name=vf["name"], axisSubsets=subs)
         d.lib = dict(vf.get("lib") or {})
         ds.addVariableFont(d)
     return ds
